@@ -42,6 +42,10 @@ SPEC = {
         "NA remap: the source form `if (x == 2^n-1) x = U;` right after an n-bit field is extracted (130311 humidity source) is "
         "read as Pair.naRemap; the harness then does not treat the field's all-ones pattern as a value of its own (it IS the "
         "enumeration's NA on the wire)",
+        "the model's setter is a function of the parameters only (SetPGN clears the message): every `set` op also calls the real "
+        "setter on message objects with a history (same PGN before, other PGN before, stale content) and demands the fresh "
+        "object's bytes; parsers with caller-sized text buffers get an independent size per buffer with a guard behind each "
+        "(op `parse … cap=…`), each string checked against its own size",
         "scaled fields are exchanged as integer codes: the harness calls the setter with code*resolution and converts the "
         "parsed double back with the parser-side resolution literal; the double<->code conversion itself is property C06. "
         "For 8-byte fields the harness searches the neighbouring doubles with the library's own Add8ByteDouble for one that "
